@@ -19,7 +19,7 @@ func TestMain(m *testing.M) { vstat.Main(m) }
 type Req struct {
 	Authority string      `json:"authority"`
 	Path      string      `json:"path"`
-	Lines     [][2]string `json:"lines"` // client-supplied forwarding header lines
+	Lines     [][2]string `json:"lines"`            // client-supplied forwarding header lines
 	Scheme    string      `json:"scheme,omitempty"` // HTTP/2 only: the :scheme the client claims
 }
 
